@@ -28,7 +28,8 @@ def parseNats (t : String) : Option (List Nat) :=
 
 def protocol (p : String) : Option (St → Nat → St) :=
   if p == "old" then some stepOld else if p == "retry" then some stepRetry
-  else if p == "atomic" then some stepAtomic else none
+  else if p == "atomic" then some stepAtomic
+  else if p.startsWith "bounded:" then (p.drop 8).toNat?.map stepBounded else none
 
 /-- `session <old|retry|atomic> <N> <b> <i,i,…>` →
     `<per-step outcomes> | ids … | pc … | retries …` -/
